@@ -118,6 +118,16 @@ func runC07(p *Prog, r *Report) {
 		r.Check(len(cl) == 1 && len(snd) == 1 && cl[0].In.Block() == snd[0].In.Block(), R, "clone-per-pipe", cl.Pos(p), "one Clone per pipe", "not one Clone per pipe")
 	}
 
+	{
+		R := "C07.19/raw-fanout"
+		r.Describe(R, "xsurveyor.SendMsg (what a survey device forwards through): every pipe is visited under the lock with Clone + non-blocking send, only a failed send drops the copy, nothing skips an entry")
+		xs := q.Fn(R, "protocol/xsurveyor", "socket", "SendMsg")
+		if xs.OK() {
+			body := fanoutLoop(p, r, R, "xsurveyor.SendMsg", xs.fn, "recv.pipes")
+			fanoutBalanced(p, r, R, "xsurveyor.SendMsg", xs, body, "arg1", ".sendQ")
+		}
+	}
+
 	R = "C07.9/context-inherits-survey-time"
 	r.Describe(R, "a context opened on the socket takes the survey time configured on the socket (the default context's), not a constant: otherwise surveys on that context expire by a deadline the user did not set")
 	oc := q.Fn(R, "protocol/surveyor", "socket", "OpenContext")
